@@ -395,6 +395,10 @@ var _ I__setitem__ = (*List)(nil)
 // var _ richComparison = (*List)(nil)
 
 func (a *List) M__eq__(other Object) (Object, error) {
+	if err := enterContainer(); err != nil {
+		return nil, err
+	}
+	defer leaveContainer()
 	b, ok := other.(*List)
 	if !ok {
 		return NotImplemented, nil
@@ -415,6 +419,10 @@ func (a *List) M__eq__(other Object) (Object, error) {
 }
 
 func (a *List) M__ne__(other Object) (Object, error) {
+	if err := enterContainer(); err != nil {
+		return nil, err
+	}
+	defer leaveContainer()
 	b, ok := other.(*List)
 	if !ok {
 		return NotImplemented, nil
